@@ -531,7 +531,10 @@ def T6(m, R):
         W = _ModWhere(mod, name)
         if node is None:
             raise AnalysisError('anchor vanished: ansi_format.%s' % name)
-        got = F.env.get(name, '<unfoldable>')
+        if name not in F.env:
+            R.undecided(W, node, 'the value of %s could not be folded' % name, construct=name)
+            continue
+        got = F.env[name]
         R.check(got == val, W, node, '%s == %r' % (name, val), '%s folds to %r, the standard value is %r' % (name, got, val), construct=name)
     ws = m.const('ansi_string', 'WHITESPACE_CHARS')
     W = _ModWhere(m.mod('ansi_string'), 'WHITESPACE_CHARS')
@@ -562,7 +565,8 @@ def T6(m, R):
         try:
             accv = F.fold(acc) if acc is not None else None
         except Unfoldable:
-            accv = '<unfoldable>'
+            R.undecided(f, c, 'acceptable terminators %s could not be folded' % short(acc), construct='acceptable_terminators')
+            continue
         R.check(accv == 'm', f, c, "only sequences ending in 'm' are removed", 'acceptable terminators fold to %r, SGR is %r' % (accv, 'm'),
                 construct='acceptable_terminators')
 
